@@ -91,6 +91,32 @@ def judge_files(chk, module, cfg, files, sig_prefix, sigfn=None, timeout=1800, m
     return out
 
 
+def survey(chk, files, nontrivial=None, nsamples=3, maxlen=400):
+    """Before judging: take samples and count DISTINCT non-trivial events (distinct = different event line;
+    non-trivial = predicate on the parsed event).  Returns (total, distinct_nontrivial)."""
+    import hashlib
+    seen = set()
+    total = 0
+    for path in files:
+        try:
+            with open(path, "rb") as f:
+                for line in f:
+                    total += 1
+                    if len(chk.cov["samples"]) < nsamples and total % 997 == 1:
+                        chk.sample(line[:maxlen].decode("latin-1"))
+                    if nontrivial is not None:
+                        try:
+                            ev = json.loads(line)
+                        except ValueError:
+                            continue
+                        if not nontrivial(ev):
+                            continue
+                    seen.add(hashlib.blake2b(line, digest_size=8).digest())
+        except OSError:
+            pass
+    return total, len(seen)
+
+
 def san_failures(chk, produced, sig_prefix):
     for path, n, rc, err in produced:
         if rc != 0:
